@@ -64,6 +64,14 @@ pub fn enc(m: &ProtocolMessage) -> Vec<u8> {
     postcard::to_stdvec(m).expect("encode")
 }
 
+/// What the receiving side of a session gets: the encoding of the message, decoded again. A message its own sender can
+/// build but no peer can decode ends the session for good (the replicas can never converge), so it is reported as such.
+pub fn over_the_wire(bytes: &[u8], who: &str, n: usize) -> R<ProtocolMessage> {
+    postcard::from_bytes(bytes).map_err(|e| {
+        format!("wire: message {n} of the session, built by the {who} from entries it accepted, cannot be decoded by its peer: {e:?} ({} bytes)", bytes.len())
+    })
+}
+
 #[derive(Debug, Clone, Default)]
 pub struct Transcript {
     /// postcard encoding of every message, in order; even indices are sent by the initiator
@@ -111,6 +119,8 @@ pub fn run_session_clocks(
                 break;
             }
             t.msgs.push(enc(&m));
+            // the peer gets what travels: the message's encoding, decoded again
+            let m = over_the_wire(t.msgs.last().unwrap(), "initiator", t.msgs.len())?;
             if let Some((_, rc)) = clocks {
                 iroh_docs::verif::set_clock(Some(rc));
             }
@@ -123,6 +133,7 @@ pub fn run_session_clocks(
                 break;
             }
             t.msgs.push(enc(&reply));
+            let reply = over_the_wire(t.msgs.last().unwrap(), "responder", t.msgs.len())?;
             if let Some((ic, _)) = clocks {
                 iroh_docs::verif::set_clock(Some(ic));
             }
